@@ -162,7 +162,16 @@ impl<'p, 'a> Evaluator<'a, 'p> {
             }
         }
 
-        this.run()?;
+        if let Err(e) = this.run() {
+            // The thunks that were being evaluated must not stay "in progress":
+            // a later request would see them as infinite recursion.
+            for state in this.state_stack.iter() {
+                if let State::GotThunk(thunk) = state {
+                    thunk.reset_in_progress();
+                }
+            }
+            return Err(e);
+        }
 
         let output = match output_kind {
             OutputKind::Value => EvalOutput::Value(this.value_stack.pop().unwrap()),
@@ -246,7 +255,7 @@ impl<'p, 'a> Evaluator<'a, 'p> {
                             }
                         }
                     }
-                    ThunkState::InProgress => {
+                    ThunkState::InProgress(_) => {
                         return Err(self.report_error(EvalErrorKind::InfiniteRecursion));
                     }
                 },
